@@ -44,6 +44,53 @@ func T_channels() {
 	vnd.Reach("end")
 }
 
+func T_select() {
+	c1 := make(chan int64, 1)
+	c2 := make(chan int64, 1)
+	var nilch chan int64
+	x := vnd.Int64("x")
+	c2 <- x
+	select {
+	case v := <-c1:
+		vnd.Assert(v == -1 && false, "an empty channel is not selected")
+	case v, ok := <-c2:
+		vnd.Assert(ok && v == x, "select receives from the ready channel")
+	case <-nilch:
+		vnd.Assert(false, "a nil channel is never ready")
+	}
+	taken := 0
+	select {
+	case <-c1:
+		taken = 1
+	default:
+		taken = 2
+	}
+	vnd.Assert(taken == 2, "default when nothing is ready")
+	select {
+	case c1 <- 4:
+		taken = 3
+	case <-c2:
+		taken = 4
+	}
+	vnd.Assert(taken == 3, "send case with buffer room")
+	done := make(chan struct{})
+	fin := make(chan int64, 1)
+	go func() {
+		fin <- <-c1 + 1
+		close(done)
+	}()
+	var r int64
+	select {
+	case <-done:
+		r = <-fin
+	case <-nilch:
+	}
+	vnd.Assert(r == 5, "a blocking select is woken by a close")
+	_, ok := <-done
+	vnd.Assert(!ok, "closed")
+	vnd.Reach("end")
+}
+
 func T_sync() {
 	var once sync.Once
 	n := 0
@@ -132,7 +179,7 @@ func T_reflect() {
 }
 `
 	fam.Files[repoDir+"/zz_verif/"+pkg+"/h.go"] = src
-	for _, f := range []string{"T_channels", "T_sync", "T_text", "T_reflect"} {
+	for _, f := range []string{"T_channels", "T_select", "T_sync", "T_text", "T_reflect"} {
 		fam.Instances = append(fam.Instances, Instance{Func: f, Stratum: "model", Desc: f, Expect: []string{"end"}})
 	}
 	fam.TestFile = repoDir + "/zz_verif/" + pkg + "/zz_replay_test.go"
